@@ -598,6 +598,15 @@ def check_validator_chain(rep, g, oks, errs, F):
                 bm = bound_matches(ex, chk, v, d)
                 rep.ob('R-BOUND', bm, g, f'{what}: bound `{v["text"]}` denotes {v.get("value", v["text"])!r}',
                        {'extracted_bound': show(chk['bound']), 'written': v['text'], 'denotes': repr(v.get('value'))})
+                if 'site_value' in v and rep.prop == 'C01':
+                    # the name is also defined one scope further in / out with another value: the bound the user declared
+                    # is what the expression denotes where it is written
+                    sv = dict(v, value=v['site_value'])
+                    rep.ob('R-SCOPE', bound_matches(ex, chk, sv, d), g,
+                           f'{what}: bound `{v["text"]}` denotes {v["site_value"]!r} at the place of the declaration',
+                           {'extracted_bound': show(chk['bound']), 'written': v['text'], 'at_declaration_site': repr(v['site_value'])},
+                           site='expressions of the attribute are resolved inside the hidden module, not where they are written '
+                                '(items local to an enclosing function body are invisible; `super::` starts one level deeper)')
         elif k == 'not_empty':
             if chk['kind'] == 'is_empty':
                 good = chk['truth'] is False
